@@ -53,13 +53,15 @@ class StackingForecaster(
 
         # split training series into training set to fit forecasters and
         # validation set to fit meta-learner
-        cv = SingleWindowSplitter(fh=self.fh.to_relative(self.cutoff))
+        fh_rel = self.fh.to_relative(self.cutoff)
+        cv = SingleWindowSplitter(fh=fh_rel)
         train_window, test_window = next(cv.split(y))
         y_fcst = y.iloc[train_window]
         y_meta = y.iloc[test_window].values
 
-        # fit forecasters on training window
-        self._fit_forecasters(forecasters, y_fcst, fh=self.fh, X=X)
+        # fit forecasters on training window, the validation window lies the same
+        # number of steps after its end, also when `fh` was given as absolute
+        self._fit_forecasters(forecasters, y_fcst, fh=fh_rel, X=X)
         X_meta = np.column_stack(self._predict_forecasters(X))
 
         # fit final regressor on on validation window
